@@ -208,6 +208,14 @@ func vfC09Oracle(in *vfGWInst, evFull string, pre, post *vfSnap) {
 			}
 		}
 	}
+	// ---- with a negative score a peer is never grafted, by whatever path (GRAFT, heartbeat, Join, fanout promotion)
+	for t, mesh := range post.Mesh {
+		for p := range mesh {
+			if !pre.Mesh[t][p] && pre.Score[p] < 0 && post.Score[p] < 0 {
+				in.bad("c09:negative-grafted", "%s (score %v) was added to mesh[%s]", p, post.Score[p], t)
+			}
+		}
+	}
 	// ---- fanout selection never takes a peer below the publish threshold
 	for t, fan := range post.Fanout {
 		for p := range fan {
@@ -242,7 +250,7 @@ func vfC09Scenarios(thorough bool) []*vfGWScenario {
 	mk("gossip-thr", true, "d2", joined, []string{"score:a:-1.5", "score:a:-1", "score:d:-1.5", "score:d:-0.5", "pub:c:m1", "ihave:a:t:m3", "ihave:d:t:m3", "iwant:a:m1", "iwant:d:m1", "prune:a:t", "prune:d:t", "hb"})
 	mk("negative", true, "d2", joined, []string{"score:a:-0.5", "score:a:0", "score:d:-0.5", "score:c:-0.5", "graft:a:t", "graft:d:t", "prune:c:t", "leave:t", "join:t", "hb", "adv:4100"})
 	mk("px", true, "d2", joined, []string{"score:a:1.9", "score:a:2", "score:a:2.5", "score:c:3", "prunepx:a:t", "prunepx:c:t", "prunepx:a:u", "leave:t", "join:t", "hb"})
-	mk("fanout-thr", false, "d2", prefix, []string{"score:a:-2.5", "score:a:-2", "score:c:-2.5", "score:d:-3", "score:d:0", "lpub:t:p1", "lpub:t:p2", "lpub:t:p3", "hb", "adv:3500"})
+	mk("fanout-thr", false, "d2", prefix, []string{"score:a:-2.5", "score:a:-2", "score:a:-0.5", "score:c:-2.5", "score:d:-3", "score:d:0", "lpub:t:p1", "lpub:t:p2", "lpub:t:p3", "hb", "adv:3500", "join:t", "leave:t"})
 	mk("px-over", true, "d2", append(append([]string{}, joined...), "graft:a:t", "graft:c:t", "graft:d:t"), []string{"hb", "score:a:-0.5", "score:c:1", "score:d:-0.5", "leave:t", "join:t", "graft:a:t"})
 	return out
 }
